@@ -77,8 +77,17 @@ impl Memoizable for FmtA {
         construct(lang, 0, &args).map(FmtA)
     }
 }
+/// Arguments whose Hash is deliberately weak (the length modulo 3) while Eq compares the whole value: legal under the
+/// Hash/Eq contract, and the only way to see a memoizer that keys its cache by the hash instead of by the arguments.
+#[derive(Clone, PartialEq, Eq)]
+struct WeakArgs(Vec<u8>);
+impl std::hash::Hash for WeakArgs {
+    fn hash<H: std::hash::Hasher>(&self, h: &mut H) {
+        (self.0.len() % 3).hash(h)
+    }
+}
 impl Memoizable for FmtB {
-    type Args = (Vec<u8>,);
+    type Args = WeakArgs;
     type Error = Inst;
     fn construct(lang: LanguageIdentifier, args: Self::Args) -> Result<Self, Self::Error> {
         construct(lang, 1, &args.0).map(FmtB)
@@ -122,8 +131,8 @@ fn seq_with(m: &IntlLangMemoizer, kind: bool, ty: usize, args: &[u8], cb: usize)
     match (ty, kind) {
         (0, false) => m.with_try_get::<FmtA, _, _>(args.to_vec(), |i| (cb, i.0.clone())),
         (0, true) => m.with_try_get_threadsafe::<FmtA, _, _>(args.to_vec(), |i| (cb, i.0.clone())),
-        (_, false) => m.with_try_get::<FmtB, _, _>((args.to_vec(),), |i| (cb, i.0.clone())),
-        (_, true) => m.with_try_get_threadsafe::<FmtB, _, _>((args.to_vec(),), |i| (cb, i.0.clone())),
+        (_, false) => m.with_try_get::<FmtB, _, _>(WeakArgs(args.to_vec()), |i| (cb, i.0.clone())),
+        (_, true) => m.with_try_get_threadsafe::<FmtB, _, _>(WeakArgs(args.to_vec()), |i| (cb, i.0.clone())),
     }
 }
 
@@ -131,8 +140,8 @@ fn conc_with(m: &concurrent::IntlLangMemoizer, kind: bool, ty: usize, args: &[u8
     match (ty, kind) {
         (0, false) => m.with_try_get::<FmtA, _, _>(args.to_vec(), |i| (cb, i.0.clone())),
         (0, true) => m.with_try_get_threadsafe::<FmtA, _, _>(args.to_vec(), |i| (cb, i.0.clone())),
-        (_, false) => m.with_try_get::<FmtB, _, _>((args.to_vec(),), |i| (cb, i.0.clone())),
-        (_, true) => m.with_try_get_threadsafe::<FmtB, _, _>((args.to_vec(),), |i| (cb, i.0.clone())),
+        (_, false) => m.with_try_get::<FmtB, _, _>(WeakArgs(args.to_vec()), |i| (cb, i.0.clone())),
+        (_, true) => m.with_try_get_threadsafe::<FmtB, _, _>(WeakArgs(args.to_vec()), |i| (cb, i.0.clone())),
     }
 }
 
